@@ -59,7 +59,9 @@ def classes():
             if render_data.finalized:
                 self.log.append(("render_with_finalized_data",))
             if self.fail_at and self.fail_at[0] == self.renders:
-                raise self.fail_at[1]
+                make = self.fail_at[1]
+                self.fail_at = None  # never keep a raised exception (its traceback pins frames) alive
+                raise make() if callable(make) and not isinstance(make, BaseException) else make
             n = d.frame_offset
             w, h = d.size
             salt = 0
@@ -121,7 +123,9 @@ def classes():
             if render_data.finalized:
                 self.log.append(("render_with_finalized_data",))
             if self.fail_at and self.fail_at[0] == self.renders:
-                raise self.fail_at[1]
+                make = self.fail_at[1]
+                self.fail_at = None  # never keep a raised exception (its traceback pins frames) alive
+                raise make() if callable(make) and not isinstance(make, BaseException) else make
             if d.iteration:
                 off, wh = d.frame_offset, d.seek_whence
                 if wh == Seek.START:
